@@ -1,13 +1,18 @@
 -------------------------------- MODULE Exec --------------------------------
 (***************************************************************************)
-(* Exec(C, a): the single definition of what a command means.              *)
-(* C = [S, now, db, D], a = token sequence.  Result: [S, r, rel].          *)
+(* Exec(C, a, g): the single definition of what a command means.           *)
+(* C = [S, now, db, D], a = token sequence, g = the reply that was         *)
+(* observed (only consulted by commands whose outcome involves a random    *)
+(* choice - SPOP, SRANDMEMBER, HRANDFIELD, ZRANDMEMBER, RANDOMKEY: the     *)
+(* choice the implementation made is read off g, checked to be a legal     *)
+(* one, and the rest of the outcome is a function of it).                  *)
+(* Result: [S, r, rel].                                                    *)
 (* rel = "eq"    the reply must equal r and the next store must equal S    *)
 (*       "skip"  the step is outside the model; nothing is claimed         *)
 (*       "panic" the implementation deviation kills the process            *)
 (*       other   relational: judged against the logged reply (ExecND)      *)
 (***************************************************************************)
-EXTENDS CmdString
+EXTENDS CmdGeneric, CmdString, CmdHash, CmdList, CmdSet, CmdZSet
 
 Modelled == {"SET", "MSET", "GET", "MGET", "DEL", "PERSIST", "EXPIRETIME", "PEXPIRETIME", "TTL", "PTTL",
              "EXPIRE", "PEXPIRE", "EXPIREAT", "PEXPIREAT", "INCR", "DECR", "INCRBY", "DECRBY",
@@ -18,7 +23,7 @@ Modelled == {"SET", "MSET", "GET", "MGET", "DEL", "PERSIST", "EXPIRETIME", "PEXP
 TouchesUnmodelled(C, a) ==
     \E i \in 2..Len(a) : IsSym(a[i]) /\ Has(C.S, C.db, a[i].s) /\ ~Modellable(ValOf(C, a[i].s))
 
-Exec(C, a) ==
+Exec(C, a, g) ==
     LET op == a[1].s IN
     CASE TouchesUnmodelled(C, a) -> Skip(C)
       [] op = "SET"         -> XSet(C, a)
@@ -50,12 +55,20 @@ Exec(C, a) ==
       [] op = "SETRANGE"    -> XSetRange(C, a)
       [] op = "STRLEN"      -> XStrLen(C, a)
       [] op \in {"GETRANGE", "SUBSTR"} -> XGetRange(C, a)
+      [] op \in HashOps     -> ExecHash(C, a, g)
+      [] op \in ListOps     -> ExecList(C, a, g)
+      [] op \in SetOps      -> ExecSet(C, a, g)
+      [] op \in ZSetOps     -> ExecZSet(C, a, g)
       [] OTHER              -> Skip(C)
 
 \* deviations that can influence the outcome of a command (keeps the search small)
 RelevantDevs(a) ==
     LET op == a[1].s IN
     CASE op \in {"SET", "MSET", "APPEND"} -> {"AdaptCanon"}
+      [] op \in HashOps -> HashDevs(a)
+      [] op \in ListOps -> ListDevs(a)
+      [] op \in SetOps  -> SetDevs(a)
+      [] op \in ZSetOps -> ZSetDevs(a)
       [] OTHER -> {}
 
 (***************************************************************************)
@@ -64,6 +77,8 @@ RelevantDevs(a) ==
 (* "malformed"|"panic"...]).  Error texts are not compared; a string reply *)
 (* may be a simple or a bulk string as long as it carries the same bytes.  *)
 (***************************************************************************)
+\* RArr: ordered.  RBag: same elements in any order.  RPairBag: flat array of (x, y) pairs, the
+\* pairs in any order (HGETALL, ... WITHSCORES of unordered results).
 RECURSIVE ReplyEq(_, _)
 ReplyEq(m, g) ==
     CASE m.t = "ok"    -> g.t = "simple" /\ g.b = <<79, 75>>
@@ -72,6 +87,16 @@ ReplyEq(m, g) ==
       [] m.t = "int"   -> g.t = "int" /\ g.n = m.n
       [] m.t = "str"   -> g.t \in {"simple", "bulk"} /\ g.b = m.b
       [] m.t = "arr"   -> g.t = "arr" /\ Len(g.a) = Len(m.a) /\ \A i \in 1..Len(m.a) : ReplyEq(m.a[i], g.a[i])
+      [] m.t = "bag"   -> /\ g.t = "arr" /\ Len(g.a) = Len(m.a)
+                          /\ \A i \in 1..Len(m.a) :
+                                Cardinality({j \in 1..Len(m.a) : m.a[j] = m.a[i]})
+                                  = Cardinality({j \in 1..Len(g.a) : ReplyEq(m.a[i], g.a[j])})
+      [] m.t = "pairbag" ->
+                          /\ g.t = "arr" /\ Len(g.a) = Len(m.a) /\ Len(m.a) % 2 = 0
+                          /\ LET n == Len(m.a) \div 2 IN
+                             \A i \in 1..n :
+                                Cardinality({j \in 1..n : m.a[2*j-1] = m.a[2*i-1] /\ m.a[2*j] = m.a[2*i]})
+                                  = Cardinality({j \in 1..n : ReplyEq(m.a[2*i-1], g.a[2*j-1]) /\ ReplyEq(m.a[2*i], g.a[2*j])})
       [] m.t = "panic" -> g.t = "panic"
       [] OTHER         -> FALSE
 
